@@ -96,13 +96,14 @@ func ruleC07ScopeArg(c *Ctx) {
 
 // ruleC07ExistsMerge: EXISTS makes every entry of the (navigable) outer row visible to the nested rows.
 func ruleC07ExistsMerge(c *Ctx) {
-	c.Doc("c07.exists-merge", "EXISTS: the loop that merges the outer row into the copies of the nested rows copies every entry of the outer row — no condition on the key guards the store (in particular the `<-` entry, through which the predicate reaches the enclosing document, is carried over) — and the outer entries are written after the nested row's own entries")
+	c.Doc("c07.exists-merge", "EXISTS: the loop that merges the outer row into the copies of the nested rows copies every entry of the outer row — no condition on the key guards the store (in particular the `<-` entry, through which the predicate reaches the enclosing document, is carried over) — and the nested element's own entries are written after the outer row's (inner scope hides outer scope)")
 	f := c.theFunc("EXISTS", "*sqlparser.ExistsExpr", "ExistExpr")
 	if f == nil {
 		c.Unknown("c07.exists-merge", "ExistExpr", "-", "anchor lost")
 		return
 	}
 	n, bad := 0, ""
+	var outerCopy, elemCopy *ssa.BasicBlock // the blocks of the two key-by-key copies into the merged row
 	allInstrs(f, func(b *ssa.BasicBlock, in ssa.Instruction) {
 		mu, ok := in.(*ssa.MapUpdate)
 		if !ok {
@@ -116,10 +117,16 @@ func ruleC07ExistsMerge(c *Ctx) {
 		if !ok {
 			return
 		}
-		src := NewTB().Of(nx.Iter.(*ssa.Range).X).String()
-		if !strings.Contains(src, "p:current") && !strings.Contains(src, "BackwardNavigation(") {
+		srcT := NewTB().Of(nx.Iter.(*ssa.Range).X)
+		src := srcT.String()
+		isOuter := srcT.Op == "param" || srcT.Op == "phi" && strings.Contains(src, "p:current") || srcT.Op == "call" && strings.Contains(srcT.Name, "BackwardNavigation")
+		if !isOuter {
+			if strings.Contains(src, "assert") || strings.Contains(src, ".from") {
+				elemCopy = nx.Block()
+			}
 			return
 		}
+		outerCopy = nx.Block()
 		n++
 		for _, fc := range relFacts(factsAt(b)) {
 			if fc.x == ssa.Value(ex) {
@@ -127,6 +134,16 @@ func ruleC07ExistsMerge(c *Ctx) {
 			}
 		}
 	})
+	// scoping: the element's own entries are written after the outer row's, so that a column of the element hides the
+	// outer row's column of the same name (the subquery run standalone on the element sees the element's value)
+	if bad == "" && n > 0 {
+		switch {
+		case elemCopy == nil || outerCopy == nil:
+			bad = "the two key-by-key copies (outer row, nested element) into the merged row were not found"
+		case !(outerCopy.Dominates(elemCopy) && !elemCopy.Dominates(outerCopy)):
+			bad = "the outer row's entries are written after the nested element's: on a name collision the outer column overrides the element's own column inside the EXISTS predicate"
+		}
+	}
 	c.Check(n > 0 && bad == "", "c07.exists-merge", c.P.funcKey(f), c.P.Pos(f.Pos()), "every entry of the outer row is copied, unconditionally", func() string {
 		if bad != "" {
 			return bad
@@ -168,7 +185,7 @@ func ruleC07OwnState(c *Ctx) {
 }
 
 func ruleC07CteMemo(c *Ctx) {
-	c.Doc("c07.cte-memo", "the lazy CTE thunk prepares the CTE's own subquery over the registry map with the enclosing options, runs it to completion (execAndPostProcess), stores the rows under the very key it was registered under (a second reference reads the materialised rows) and returns them; errors are returned without materialising")
+	c.Doc("c07.cte-memo", "the lazy CTE thunk prepares the CTE's own subquery over the registry map with the enclosing options, runs it to completion (execAndPostProcess), stores, under the very key it was registered under, a thunk that returns exactly those rows (a second reference reads the materialised rows; the entry stays a CTE entry, never a plain value) and returns them; errors are returned without materialising")
 	f := c.theFunc("CTE builder", "*sqlparser.With", "BuildCte")
 	if f == nil {
 		c.Unknown("c07.cte-memo", "BuildCte", "-", "anchor lost")
@@ -257,8 +274,12 @@ func ruleC07CteMemo(c *Ctx) {
 		if rows == nil || rows.V != run.Instr.(ssa.Value) {
 			why = append(why, "the thunk returns "+avString(p.Ret[0])+", not the rows of its subquery")
 		}
-		if lastStore == nil || ext0(lastStore.Args[2]) == nil || ext0(lastStore.Args[2]).V != run.Instr.(ssa.Value) {
+		if lastStore == nil {
 			why = append(why, "the rows are not stored under the CTE's own key: a second reference re-evaluates or reads something else")
+		} else if x := ext0(lastStore.Args[2]); x != nil && x.V == run.Instr.(ssa.Value) {
+			why = append(why, "the evaluated rows are stored as a plain value: the registry is also the `dual` row and the enclosing document, where a plain entry is taken for a column (the result of `SELECT * FROM dual` then depends on whether the CTE was evaluated before)")
+		} else if !isMemoThunk(lastStore.Args[2], run.Instr.(ssa.Value)) {
+			why = append(why, "the value stored under the CTE's own key is neither the rows nor a thunk returning them: a second reference re-evaluates or reads something else")
 		}
 	}
 	if n == 0 {
@@ -1079,4 +1100,173 @@ func loopCarried(f *ssa.Function, ph *ssa.Phi) bool {
 		return false
 	}
 	return visit(ph)
+}
+
+func init() { register("C17", ruleC17ByteCopy) }
+
+// ruleC17ByteCopy: the rewriters copy the bytes of the statement as bytes.
+func ruleC17ByteCopy(c *Ctx) {
+	c.Doc("c17.byte-copy", "quote rewriter (DoubleQuotesToBackTick): a byte of the input is written with WriteByte; WriteRune (and string(rune) conversions) are applied to constants only — writing the byte str[i] as a rune re-encodes every byte >= 0x80 as two bytes and corrupts non-ASCII literals and identifiers")
+	f := c.P.Func(modPath, "DoubleQuotesToBackTick")
+	if f == nil {
+		c.Unknown("c17.byte-copy", "DoubleQuotesToBackTick", "-", "anchor lost")
+		return
+	}
+	var why []string
+	nWrites := 0
+	isConstRune := func(v ssa.Value) bool {
+		for {
+			switch x := v.(type) {
+			case *ssa.Const:
+				return true
+			case *ssa.Convert:
+				v = x.X
+				continue
+			case *ssa.Phi:
+				// a rune variable that also receives input bytes
+				return false
+			}
+			return false
+		}
+	}
+	deepInstrs(f, func(g *ssa.Function, _ *TB, _ *ssa.BasicBlock, in ssa.Instruction) {
+		switch x := in.(type) {
+		case *ssa.Call:
+			name := calleeName(x.Common())
+			if strings.HasSuffix(name, ".WriteRune") || strings.HasSuffix(name, ".WriteByte") || strings.HasSuffix(name, ".WriteString") || strings.HasSuffix(name, ".Write") {
+				nWrites++
+			}
+			if strings.HasSuffix(name, ".WriteRune") && len(x.Common().Args) >= 2 && !isConstRune(x.Common().Args[len(x.Common().Args)-1]) {
+				why = append(why, "an input byte is written as a rune at "+c.P.Pos(x.Pos())+": bytes >= 0x80 are re-encoded")
+			}
+		case *ssa.Convert:
+			// string(rune) / string(byte) of a non-constant value
+			if bt, ok := x.Type().Underlying().(*types.Basic); ok && bt.Kind() == types.String {
+				if st, ok := x.X.Type().Underlying().(*types.Basic); ok && st.Info()&types.IsInteger != 0 && !isConstRune(x.X) {
+					why = append(why, "an input byte is converted with string(rune) at "+c.P.Pos(x.Pos())+": bytes >= 0x80 are re-encoded")
+				}
+			}
+		}
+	})
+	if nWrites == 0 {
+		why = append(why, "no buffer writes found")
+	}
+	c.Check(len(why) == 0, "c17.byte-copy", "DoubleQuotesToBackTick", c.P.Pos(f.Pos()), fmt.Sprintf("%d buffer writes; runes written are constants", nWrites), strings.Join(uniq(why), "; "))
+}
+
+
+// isMemoThunk: t is a closure all of whose paths return (the rows captured from run, nil).
+func isMemoThunk(t *Term, run ssa.Value) bool {
+	if t == nil || t.Op != "closure" {
+		return false
+	}
+	mc, ok := t.V.(*ssa.MakeClosure)
+	if !ok {
+		return false
+	}
+	fn := mc.Fn.(*ssa.Function)
+	isRows := func(v ssa.Value) bool {
+		ex, ok := v.(*ssa.Extract)
+		return ok && ex.Index == 0 && ex.Tuple == run
+	}
+	good := map[string]bool{} // free variables bound to the rows
+	for i, b := range mc.Bindings {
+		if i >= len(fn.FreeVars) {
+			continue
+		}
+		if isRows(b) {
+			good[fn.FreeVars[i].Name()] = true
+		}
+		if al, isAl := b.(*ssa.Alloc); isAl && al.Referrers() != nil {
+			n, all := 0, true
+			for _, r := range *al.Referrers() {
+				if st, isSt := r.(*ssa.Store); isSt && st.Addr == ssa.Value(al) {
+					n++
+					if !isRows(st.Val) {
+						all = false
+					}
+				}
+			}
+			if n > 0 && all {
+				good[fn.FreeVars[i].Name()] = true
+			}
+		}
+	}
+	paths, err := WalkFunc(fn, WalkCfg{MaxVisits: 1})
+	if err != nil || len(paths) == 0 {
+		return false
+	}
+	for _, p := range paths {
+		if p.Exit != "return" || len(p.Ret) != 2 || !p.Ret[1].Nil || p.Ret[0].T == nil {
+			return false
+		}
+		r := p.Ret[0].T
+		if r.Op == "load" && len(r.Args) == 1 {
+			r = r.Args[0]
+		}
+		if r.Op != "freevar" || !good[r.Name] {
+			return false
+		}
+		for _, e := range p.Effects {
+			if e.Kind == "call" || e.Kind == "mapupdate" || e.Kind == "store" {
+				return false
+			}
+		}
+	}
+	return true
+}
+
+// a subquery on the right of IN / NOT IN: both arms read the single column of its rows (c01.in-siblings)
+func init() { register("C07", ruleC01Membership) }
+
+func init() { register("C07", ruleC07FunctionOnThunk); register("C09", ruleC07FunctionOnThunk) }
+
+// ruleC07FunctionOnThunk: a top-level selector function never receives an unevaluated CTE.
+func ruleC07FunctionOnThunk(c *Ctx) {
+	c.Doc("c07.function-on-thunk", "top-level selector functions (ReaderExecutor): on every path that calls the function, its argument is either the evaluated result of a lazy CTE thunk or the reader's result with the thunk type test false — `distinct=>cte` / `mix=>cte` see the CTE's rows as they would see plain input")
+	f := c.P.Func(modPath, "ReaderExecutor")
+	if f == nil {
+		c.Unknown("c07.function-on-thunk", "ReaderExecutor", "-", "anchor lost")
+		return
+	}
+	c.Fn("ReaderExecutor")
+	paths, err := WalkFunc(f, WalkCfg{MaxVisits: 1})
+	if err != nil {
+		c.Unknown("c07.function-on-thunk", "ReaderExecutor", c.P.Pos(f.Pos()), err.Error())
+		return
+	}
+	var why []string
+	n := 0
+	for _, p := range paths {
+		// the call of the looked-up function: a dynamic call whose callee is the map lookup
+		var fnCall *Effect
+		for i := range p.Effects {
+			e := &p.Effects[i]
+			if e.Kind == "call" && e.Callee == "dyn" && len(e.Args) == 2 && strings.Contains(e.Args[0].String(), "topLevelFunctions") {
+				fnCall = e
+			}
+		}
+		if fnCall == nil {
+			continue
+		}
+		n++
+		arg := fnCall.Args[1]
+		if x := ext0(arg); x != nil && x.Op == "call" && x.Name == "dyn" {
+			continue // the result of calling the thunk
+		}
+		tested := false
+		for k, v := range p.Asg {
+			kt := p.KeyTerm[k]
+			if kt != nil && kt.Op == "ext" && kt.Name == "1" && kt.Args[0].Op == "assertok" && (kt.Args[0].Name == "func() (any, error)" || kt.Args[0].Name == "CteEvaluation") && !isTrueC(v) {
+				tested = true
+			}
+		}
+		if !tested {
+			why = append(why, "the function is applied to "+arg.String()+" without excluding a lazy CTE thunk: `distinct=>cte` fails (or sees a func value) where plain input works")
+		}
+	}
+	if n == 0 {
+		why = append(why, "no path applies a top-level function")
+	}
+	c.Check(len(why) == 0, "c07.function-on-thunk", "ReaderExecutor", c.P.Pos(f.Pos()), fmt.Sprintf("%d paths apply the function, none to an unevaluated thunk", n), strings.Join(uniq(why), "; "))
 }
